@@ -677,6 +677,21 @@ def run (ins outs : List String) : Verdict :=
   | _, ["INVALID"] =>
     -- the harness refused the line (a method without a route: produced by the shrinker only)
     { agree := true, specOk := true, tag := "~not-an-input", model := "INVALID" }
+  | ["R", cons, dflt, _paramKind], [rc] =>
+    -- stream R: what the router files as the operation's consumes list — `routeConsumes`, the operation's own
+    -- list (in the analyzer's map order, duplicates dropped) plus the API default, LAST, unless it is in
+    -- the list already; whatever parameters the operation declares
+    match decList cons, decField dflt, decList rc with
+    | some cons, some dflt, some rc' =>
+      let u := cons.eraseDups
+      let want := routeConsumes ⟨u, dflt, []⟩
+      let ok := rc'.length == want.length && want.all rc'.contains && rc'.all want.contains &&
+        (want.length == u.length || rc'.getLast? == some dflt)
+      -- Spec: the default type is always among them
+      let spec := dflt.isEmpty || containsCI rc' dflt
+      { agree := ok, specOk := ok && spec, tag := s!"R:n={u.length.min 3}:{if want.length == u.length then "has" else "adds"}",
+        model := encList want }
+    | _, _, _ => .bad "C06 R fields"
   | ["G", cons, dflt, reg, meth, cts, cl, clh, mode],
     [hb, eff, p1, p2, uC, uS, uR, tC, tS, tR, sSt, sR, sH] =>
     match decList cons, decField dflt, decList reg, decField meth, decList cts, cl.toInt?,
